@@ -9,10 +9,12 @@
 (c) supplementary, non-deciding: the same bodies free-running with a minimal switch interval."""
 import copy
 import itertools
+import os
 import sys
 import threading
 
 from mc import core, pipeline, sched
+import json_to_models.cli  # noqa: F401  imported up front: a thread preempted inside a module import would hold the import lock
 
 PROP = "C15"
 
@@ -35,6 +37,11 @@ INPUTS_SMALL = {
     # same shape, same model indexes, opposite similarity: shared per-index state flips a merge decision
     "sim": [{"l": {"u": 1, "v": 2, "w": 3}, "r": {"u": 1, "v": 2, "w": 3, "z": 4}}],
     "dis": [{"l": {"u": 1, "v": 2, "w": 3}, "r": {"x": 1, "y": 2, "z": 3}}],
+    # pseudo-typed strings whose union needs the registry's resolve(); date-only / time-only strings for first-match detection
+    "intfloat": [{"price": "1", "qty": "2"}, {"price": "1.5", "qty": "3"}],
+    "intfloat2": [{"n": "2", "r": "2.5", "k": "x"}, {"n": "3", "r": "4", "k": "y"}],
+    "dates": [{"day": "2020-01-01", "at": "12:30", "ts": "2020-01-01T10:00:00", "n": "5"}],
+    "dates2": [{"born": "1999-12-31", "seen": "2021-05-06T07:08:09", "alarm": "06:45"}],
 }
 INPUTS = INPUTS_SMALL
 # thread bodies: (input, framework, layout, generator kwargs)
@@ -45,28 +52,110 @@ BODIES = {
     "T4": ("literal", "dataclasses", "nested", {"post_init_converters": True}),
     "T5": ("sim", "dataclasses", "flat", {"meta": True}),
     "T6": ("dis", "attrs", "flat", {"meta": True}),
+    # bodies that go through PROCESS-WIDE state, as ordinary users do: the default string registry (MetadataGenerator() without an
+    # explicit registry) and the CLI class (which registers the datetime types in the default registry on every run)
+    "T7": ("intfloat", "pydantic", "flat", {}, "defreg"),
+    "T8": ("intfloat2", "attrs", "flat", {}, "defreg"),
+    "T9": ("dates", "pydantic", "flat", {}, "cli"),
+    "T10": ("dates2", "dataclasses", "flat", {}, "cli"),
+    # library use of the default registry on date-like strings, next to a CLI run that (re-)registers the datetime types in it
+    "T11": ("dates", "attrs", "flat", {}, "defreg"),
 }
 _SOLO = {}
 _WARM = {}
 
 
+def _mode(name):
+    return BODIES[name][4] if len(BODIES[name]) > 4 else "explicit"
+
+
 def _build(name):
     inp = BODIES[name][0]
+    if _mode(name) == "defreg":
+        from json_to_models.generator import MetadataGenerator
+        from json_to_models.registry import ModelRegistry
+        gen = MetadataGenerator()            # process-wide default string registry
+        reg = ModelRegistry()
+        reg.process_meta_data(gen.generate(*copy.deepcopy(INPUTS[inp])), model_name="Root")
+        reg.merge_models(gen)
+        reg.generate_names()
+        return reg
     return pipeline.build(copy.deepcopy(INPUTS[inp]), types=pipeline.DEFAULT_TYPES).reg
 
 
-def _body(name, reg, whole):
-    _, fw, layout, kw = BODIES[name]
-    if whole:
+def _cli_body(name, workdir):
+    import json as _json
+    from mc import clidrv
+    inp, fw = BODIES[name][0], BODIES[name][1]
+    path = os.path.join(workdir, f"{name}.json")
+    with open(path, "w") as f:
+        _json.dump(INPUTS[inp], f)
+
+    def run():
+        from json_to_models.cli import Cli
+        cli = Cli()
+        cli.parse_args(["-m", "Root", path, "-f", fw, "--datetime"])
+        return clidrv.split_header(cli.run())[1]
+    return run
+
+
+def _body(name, reg, whole, workdir=None):
+    fw, layout, kw = BODIES[name][1:4]
+    if _mode(name) == "cli":
+        return _cli_body(name, workdir)
+    if whole or _mode(name) == "defreg":
         return lambda: pipeline.render(_build(name), fw, layout, **kw)
     return lambda: pipeline.render(reg, fw, layout, **kw)
 
 
-def solo(name):
-    if name not in _SOLO:
-        _, fw, layout, kw = BODIES[name]
-        _SOLO[name] = pipeline.render(_build(name), fw, layout, **kw)
-    return _SOLO[name]
+def _in_fork(fn):
+    """run fn() in a forked child (process-wide state such as the default registry must start pristine and must not
+    leak into the worker that explores further schedules); returns its JSON-able result"""
+    import json as _json
+    r, w = os.pipe()
+    pid = os.fork()
+    if pid == 0:
+        try:
+            os.close(r)
+            try:
+                res = {"ok": fn()}
+            except BaseException as e:
+                import traceback
+                res = {"err": "".join(traceback.format_exception(type(e), e, e.__traceback__))[-1500:]}
+            with os.fdopen(w, "w") as f:
+                _json.dump(res, f)
+        finally:
+            os._exit(0)
+    os.close(w)
+    with os.fdopen(r) as f:
+        data = f.read()
+    os.waitpid(pid, 0)
+    res = _json.loads(data) if data else {"err": "no result from forked child"}
+    if "err" in res:
+        raise core.HarnessError(res["err"])
+    return res["ok"]
+
+
+def solo(name, warm=()):
+    """output of the body run alone; for bodies on process-wide state: alone in a forked child of a pristine process,
+    after the same sequential warm-up the scheduled run starts from"""
+    key = (name, tuple(warm))
+    if key not in _SOLO:
+        fw, layout, kw = BODIES[name][1:4]
+        if _mode(name) == "explicit" and not warm:
+            _SOLO[key] = pipeline.render(_build(name), fw, layout, **kw)
+        else:
+            def alone():
+                import tempfile, shutil
+                d = tempfile.mkdtemp(prefix="c15s_")
+                try:
+                    for w in warm:
+                        _body(w, None, True, d)()
+                    return _body(name, None, True, d)()
+                finally:
+                    shutil.rmtree(d, ignore_errors=True)
+            _SOLO[key] = _in_fork(alone)
+    return _SOLO[key]
 
 
 def execute(case):
@@ -76,28 +165,50 @@ def execute(case):
         return _free_running(case)
     names = case["threads"]
     whole = bool(case.get("whole"))
+    if any(_mode(n) != "explicit" for n in names) and not case.get("_child"):
+        # process-wide state involved: every schedule starts from the state of a process that has only imported the library
+        warm = tuple(names) if case.get("warm") else ()
+        c2 = dict(case, _child=True, _solo={n: solo(n, warm) for n in names})   # baselines from the pristine worker, not from the child
+        return _in_fork(lambda: _strip_exc(execute(c2)))
     if case["gran"] == "opcode" and not _WARM.get("opcode"):
         # CPython 3.12 enables per-instruction events lazily: the first traced frames of a process miss them. One throw-away
         # execution makes the step counts stable (a residual instability would surface as a hard Divergence error, never as a verdict).
         _WARM["opcode"] = True
         for f in range(len(names)):
             sched.Execution([_body(n, _build(n), False) for n in names], [], first=f, granularity="opcode", record_tail=False).run()
-    regs = [None if whole else _build(n) for n in names]
-    bodies = [_body(n, r, whole) for n, r in zip(names, regs)]
+    workdir = None
+    if any(_mode(n) == "cli" for n in names):
+        import tempfile
+        workdir = tempfile.mkdtemp(prefix="c15_")
+    regs = [None if (whole or _mode(n) != "explicit") else _build(n) for n in names]
+    bodies = [_body(n, r, whole, workdir) for n, r in zip(names, regs)]
+    if case.get("warm"):
+        # start from a non-initial state: every body has already run once, sequentially, in this (forked) process
+        for n in names:
+            _body(n, None, True, workdir)()
     ex = sched.Execution(bodies, case["schedule"], first=case.get("first", 0), granularity=case["gran"],
                          record_tail=bool(case.get("tail", True)))
-    ex.run()
+    try:
+        ex.run()
+    finally:
+        if workdir:
+            import shutil
+            shutil.rmtree(workdir, ignore_errors=True)
     viol = []
-    shape = sorted(names) + [f"preemptions:{len(case['schedule'])}"]
+    shape = sorted(names) + [f"preemptions:{len(case['schedule'])}"] + (["warm"] if case.get("warm") else [])
     outs = []
+    solos = case.get("_solo")
+    if solos is None:
+        solos = {n: solo(n, tuple(names) if case.get("warm") else ()) for n in names}
+    solo_of = solos.__getitem__
     for i, n in enumerate(names):
         if ex.errors[i] is not None:
             e = ex.errors[i]
             viol.append(core.viol("thread_raises_under_schedule", f"{n}:{core.exc_site(e)}", shape,
                                   f"{type(e).__name__}: {e} schedule={case['schedule']} first={case.get('first', 0)}"))
             outs.append("exc")
-        elif ex.results[i] != solo(n):
-            a, b = ex.results[i].splitlines(), solo(n).splitlines()
+        elif ex.results[i] != solo_of(n):
+            a, b = ex.results[i].splitlines(), solo_of(n).splitlines()
             diff = next((f"line {j + 1}: got {x!r} solo {y!r}" for j, (x, y) in enumerate(itertools.zip_longest(a, b, fillvalue="<eof>")) if x != y), "?")
             viol.append(core.viol("thread_output_differs_from_solo", n, shape, f"{diff} schedule={case['schedule']} first={case.get('first', 0)}"))
             outs.append("diff")
@@ -106,6 +217,10 @@ def execute(case):
     return {"obs": ["/".join(outs)], "viol": viol, "execs": 1, "trans": sum(ex.steps), "outcome": "/".join(outs),
             "show": f"{names} schedule={case['schedule']} steps={ex.steps}", "tail": ex.tail if case.get("tail", True) else None,
             "steps": ex.steps, "nontrivial": core.digest([names, case["schedule"], case.get("first", 0)]) if case["schedule"] else None}
+
+
+def _strip_exc(res):
+    return res
 
 
 def _any_thread(case):
@@ -193,6 +308,15 @@ def run(tier, seed):
         plans.append({"threads": ["T5", "T6"], "gran": "call", "bound": 1, "whole": True})
         plans.append({"threads": ["T5", "T6"], "gran": "line", "bound": 1, "whole": True})
         plans.append({"threads": ["T4", "T2"], "gran": "line", "bound": 1, "whole": False})
+        # shared process-wide state: default registry (T7, T8) and the CLI's datetime registration (T9, T10); forked per schedule
+        for pair in (["T7", "T8"], ["T9", "T10"]):
+            plans.append({"threads": pair, "gran": "call", "bound": 1, "whole": True})
+            plans.append({"threads": pair, "gran": "line", "bound": 1, "whole": True})
+        plans.append({"threads": ["T9", "T10"], "gran": "call", "bound": 1, "whole": True, "warm": True})
+        plans.append({"threads": ["T9", "T10"], "gran": "line", "bound": 1, "whole": True, "warm": True})
+        plans.append({"threads": ["T7", "T8"], "gran": "line", "bound": 1, "whole": True, "warm": True})
+        plans.append({"threads": ["T9", "T11"], "gran": "call", "bound": 1, "whole": True, "warm": True})
+        plans.append({"threads": ["T9", "T11"], "gran": "line", "bound": 1, "whole": True, "warm": True})
         # cheap plans first: a wall-budget cap then cuts the largest bound-2 plan, never the bound-1 coverage
         plans.sort(key=lambda pl: (pl["bound"], pl["gran"] == "call" and pl["bound"] == 2))
     else:
@@ -206,6 +330,12 @@ def run(tier, seed):
         plans.append({"threads": ["T1", "T2"], "gran": "opcode", "bound": 1, "whole": False})
         plans.append({"threads": ["T5", "T6"], "gran": "call", "bound": 2, "whole": True})
         plans.append({"threads": ["T5", "T6"], "gran": "line", "bound": 2, "whole": True})
+        for pair in (["T7", "T8"], ["T9", "T10"], ["T7", "T9"]):
+            plans.append({"threads": pair, "gran": "call", "bound": 2, "whole": True})
+            plans.append({"threads": pair, "gran": "line", "bound": 1, "whole": True})
+        for pair in (["T9", "T10"], ["T9", "T11"], ["T7", "T8"]):
+            plans.append({"threads": pair, "gran": "call", "bound": 2, "whole": True, "warm": True})
+            plans.append({"threads": pair, "gran": "line", "bound": 1, "whole": True, "warm": True})
         for tri in (["T1", "T2", "T3"],):
             plans.append({"threads": tri, "gran": "call", "bound": 2, "whole": False})
     r.rule = ("(a) 5 frameworks x 2 layouts in a fresh worker thread; (b) all schedules with <= bound preemptions for each plan (thread tuple, "
@@ -228,8 +358,8 @@ def run(tier, seed):
     completed = {}
     for plan in plans:
         level = [{"k": "sched", "threads": plan["threads"], "gran": plan["gran"], "whole": plan["whole"], "schedule": [], "first": f,
-                  "tail": plan["bound"] > 0} for f in range(len(plan["threads"]))]
-        key = f"{'+'.join(plan['threads'])}:{plan['gran']}{':whole' if plan['whole'] else ''}"
+                  "tail": plan["bound"] > 0, "warm": bool(plan.get("warm"))} for f in range(len(plan["threads"]))]
+        key = f"{'+'.join(plan['threads'])}:{plan['gran']}{':whole' if plan['whole'] else ''}{':warm' if plan.get('warm') else ''}"
         for depth in range(plan["bound"] + 1):
             nxt = []
             want_tail = depth < plan["bound"]
